@@ -126,6 +126,24 @@ def check_net(net, spec):
                     fail("C02:v_mean:%s" % tbl, "v = mdot/(rho A)", table=tbl, index=int(idx), reported=r.at[idx, "v_mean_m_per_s"], expected=v)
                 loss = (lam * length / d + zeta) * rho * v * abs(v) / 2 / 1e5
                 resid = pf - pt + rho * G * dh / 1e5 - loss
+                if tbl == "pipe" and sections >= 2 and idx not in pv_pipes and abs(tf - tout) <= 1e-9 and has_fr:
+                    # the law section by section: internal nodes sit at linearly interpolated heights, every section carries the
+                    # pipe's flow, 1/n of its length and 1/n of its lumped loss coefficient
+                    try:
+                        from pandapipes.component_models.pipe_component import Pipe
+                        pin = np.asarray(Pipe.get_internal_results(net, np.array([idx]))["PINIT"])[:, 1]
+                    except Exception as ex:         # the helper is outside this clause (C06 covers it)
+                        pin = None
+                    if pin is not None and len(pin) == sections - 1 and np.all(np.isfinite(pin)):
+                        hs = np.linspace(h.at[fj], h.at[tj], sections + 1)
+                        pg = np.concatenate([[r.at[idx, "p_from_bar"]], pin, [r.at[idx, "p_to_bar"]]])
+                        pa = pg + np.array([pamb(x) for x in hs])
+                        loss_s = (lam * length / sections / d + zeta / sections) * rho * v * abs(v) / 2 / 1e5
+                        rs = pa[:-1] - pa[1:] + rho * G * (hs[:-1] - hs[1:]) / 1e5 - loss_s
+                        if np.max(np.abs(rs)) > 2e-7 + 1e-6 * abs(loss_s):
+                            fail("C02:law:liquid:pipe-section", "documented momentum equation, section by section", table=tbl,
+                                 index=int(idx), section=int(np.argmax(np.abs(rs))), residual_bar=float(np.max(np.abs(rs))),
+                                 sections=sections, mdot=m)
             else:
                 if sections != 1:
                     continue
